@@ -30,6 +30,7 @@ import (
 	"runtime/pprof"
 	"strconv"
 	"strings"
+	"sync/atomic"
 	"syscall"
 	"time"
 
@@ -322,9 +323,17 @@ func readMarker(path string) (int, int) {
 }
 
 type skipSpec struct {
-	Job   int                   `json:"job"`
-	Calls map[int]inputs.Result `json:"calls"` // call index -> injected result
+	// Jobs: job index -> call index -> injected result (the observation "timeout" / "fatal" of a
+	// call that killed an earlier worker; kept for every job, because records a dead worker had
+	// not flushed yet are re-executed)
+	Jobs map[int]map[int]inputs.Result `json:"jobs"`
+	// Ban: "kind|entry point" pairs that already hung / killed the worker banK times in this run;
+	// they are no longer fed (observation "notrun") - the candidate exists, more of the same only
+	// costs a watchdog period and a worker restart each.
+	Ban []string `json:"ban"`
 }
+
+const banK = 3
 
 // work: executes jobs[from:], writes one record per applicable job to stdout.
 func work(pl *plan, from int, markerPath string, skip skipSpec) {
@@ -346,6 +355,10 @@ func work(pl *plan, from int, markerPath string, skip skipSpec) {
 	inputs.StartWatchdog(time.Duration(pl.model.TimeLimitMs) * time.Millisecond)
 	inputs.OnOverrun = func() { os.Exit(4) }
 	enc := json.NewEncoder(w)
+	banned := map[string]bool{}
+	for _, b := range skip.Ban {
+		banned[b] = true
+	}
 	for ji := from; ji < len(pl.jobs); ji++ {
 		j := pl.jobs[ji]
 		mk.set(ji, -1)
@@ -371,12 +384,15 @@ func work(pl *plan, from int, markerPath string, skip skipSpec) {
 				obs.Fatal("the model names entry point %q which the harness does not bind", ep)
 			}
 			for _, mode := range pl.model.Modes {
-				if skip.Job == ji {
-					if inj, ok := skip.Calls[ci]; ok {
-						rec.R = append(rec.R, inj)
-						ci++
-						continue
-					}
+				if inj, ok := skip.Jobs[ji][ci]; ok {
+					rec.R = append(rec.R, inj)
+					ci++
+					continue
+				}
+				if banned[k.K+"|"+ep] {
+					rec.R = append(rec.R, inputs.Result{EP: ep, M: mode, O: "notrun"})
+					ci++
+					continue
 				}
 				mk.set(ji, ci)
 				d := data
@@ -387,11 +403,12 @@ func work(pl *plan, from int, markerPath string, skip skipSpec) {
 		mk.set(ji, -2)
 		bad := false
 		for _, r := range rec.R {
-			if r.O != "ok" && r.O != "err" {
+			if r.O != "ok" && r.O != "err" && r.O != "notrun" {
 				bad = true
 			}
 		}
 		if (bad || os.Getenv("VERIF_C01_DETAIL") != "") && len(data) <= 1<<16 {
+			// (a record whose only oddity is "notrun" needs no bytes)
 			rec.Hex = hex.EncodeToString(data)
 		}
 		fmt.Fprintf(w, "REC %d ", ji)
@@ -445,6 +462,7 @@ type cellAgg struct {
 }
 
 type aggregator struct {
+	notrun int
 	pl     *plan
 	out    *bufio.Writer
 	detail bool
@@ -508,13 +526,16 @@ func (a *aggregator) add(rec *record) {
 			s.cell[[2]int{ci / nm, ci % nm}] = c
 		}
 		c.os[r.O] = true
+		if r.O == "notrun" {
+			a.notrun++
+		}
 		if r.Ms > c.ms {
 			c.ms = r.Ms
 		}
 		if r.KiB > c.kib {
 			c.kib = r.KiB
 		}
-		if (r.O != "ok" && r.O != "err") && len(s.Bad) < 6 {
+		if (r.O != "ok" && r.O != "err" && r.O != "notrun") && len(s.Bad) < 6 {
 			s.Bad = append(s.Bad, badCall{Result: r, Seed: rec.Seed, Len: rec.Len, Hex: rec.Hex})
 		}
 	}
@@ -536,7 +557,7 @@ func (a *aggregator) flush() {
 					continue
 				}
 				var os []string
-				for _, o := range []string{"ok", "err", "panic", "timeout", "fatal"} {
+				for _, o := range []string{"ok", "err", "panic", "timeout", "fatal", "notrun"} {
 					if c.os[o] {
 						os = append(os, o)
 					}
@@ -584,10 +605,23 @@ func supervise(pl *plan, childArgs []string, outPath string, detail bool) {
 	markerPath := outPath + ".marker"
 	defer os.Remove(markerPath)
 	from := 0
-	skip := skipSpec{Job: -1, Calls: map[int]inputs.Result{}}
+	skip := skipSpec{Jobs: map[int]map[int]inputs.Result{}}
 	na, recs, restarts, deaths := 0, 0, 0, 0
+	deathsBy := map[string]int{}
+	// wall budget of this stage: when it is used up the supervisor stops feeding, keeps what it
+	// has (the driver goes on to replay the candidates gathered so far) and reports how many jobs
+	// were left
+	var deadline time.Time
+	if b, err := strconv.Atoi(os.Getenv("VERIF_C01_BUDGET_S")); err == nil && b > 0 {
+		deadline = time.Now().Add(time.Duration(b) * time.Second)
+	}
+	budgetHit := false
 	self, _ := os.Executable()
 	for from < len(pl.jobs) {
+		if !deadline.IsZero() && time.Now().After(deadline) {
+			budgetHit = true
+			break
+		}
 		os.Remove(markerPath)
 		args := append([]string{"work"}, childArgs...)
 		args = append(args, strconv.Itoa(from), markerPath, mustJSON(skip))
@@ -604,6 +638,11 @@ func supervise(pl *plan, childArgs []string, outPath string, detail bool) {
 		}
 		if err := cmd.Start(); err != nil {
 			obs.Fatal("start worker: %v", err)
+		}
+		var killed atomic.Bool
+		if !deadline.IsZero() {
+			tm := time.AfterFunc(time.Until(deadline), func() { killed.Store(true); cmd.Process.Kill() })
+			defer tm.Stop()
 		}
 		next := from
 		rd := bufio.NewReaderSize(stdout, 1<<20)
@@ -636,6 +675,11 @@ func supervise(pl *plan, childArgs []string, outPath string, detail bool) {
 			from = len(pl.jobs)
 			break
 		}
+		if killed.Load() {
+			from = next
+			budgetHit = true
+			break
+		}
 		// the worker died: the marker names the call in flight
 		deaths++
 		code := -1
@@ -654,12 +698,23 @@ func supervise(pl *plan, childArgs []string, outPath string, detail bool) {
 			res = inputs.Result{O: "timeout", Ms: pl.model.TimeLimitMs + 1}
 		}
 		res.Site = fatalSite(stderr.String())
-		if skip.Job != mj {
-			skip = skipSpec{Job: mj, Calls: map[int]inputs.Result{}}
+		if skip.Jobs[mj] == nil {
+			skip.Jobs[mj] = map[int]inputs.Result{}
 		}
 		k := pl.model.Kind(pl.jobs[mj].seed.Kind)
 		res.EP, res.M = k.EPs[mc/len(pl.model.Modes)], pl.model.Modes[mc%len(pl.model.Modes)]
-		skip.Calls[mc] = res
+		skip.Jobs[mj][mc] = res
+		bk := k.K + "|" + res.EP
+		deathsBy[bk+"|"+res.O]++
+		if deathsBy[bk+"|"+res.O] >= banK {
+			already := false
+			for _, b := range skip.Ban {
+				already = already || b == bk
+			}
+			if !already {
+				skip.Ban = append(skip.Ban, bk)
+			}
+		}
 		from = next
 		restarts++
 		if restarts > 2000 {
@@ -670,6 +725,13 @@ func supervise(pl *plan, childArgs []string, outPath string, detail bool) {
 	obs.Stat("records", recs)
 	obs.Stat("not_applicable", na)
 	obs.Stat("worker_deaths", deaths)
+	obs.Stat("calls_not_run", ag.notrun)
+	if len(skip.Ban) > 0 {
+		obs.Stat("banned", skip.Ban)
+	}
+	if budgetHit {
+		obs.Stat("budget_jobs_left", len(pl.jobs)-from)
+	}
 }
 
 type limitedWriter struct {
@@ -841,8 +903,8 @@ func main() {
 		if err := json.Unmarshal([]byte(rest[n-1]), &skip); err != nil {
 			obs.Fatal("skip: %v", err)
 		}
-		if skip.Calls == nil {
-			skip.Calls = map[int]inputs.Result{}
+		if skip.Jobs == nil {
+			skip.Jobs = map[int]map[int]inputs.Result{}
 		}
 		if pf := os.Getenv("VERIF_CPUPROFILE"); pf != "" {
 			f, _ := os.Create(pf + "." + rest[n-3])
